@@ -104,7 +104,15 @@ pub fn gen_find(rng: &mut Rng, idx: usize) -> Case {
             StepType::Then => coll.then(LOCS[*l], re, FNS[*f]),
         };
     }
-    let step = mk_step(&StepSpec { ty: kw, value: text.to_owned() }, 1);
+    let mut step = mk_step(&StepSpec { ty: kw, value: text.to_owned() }, 1);
+    // the keyword as WRITTEN is not what selects the definitions (the step TYPE is): `And` / `But` inherit the type of
+    // the step before them, the `*` bullet is reported as a Given step
+    if rng.chance(1, 4) {
+        step.keyword = match kw {
+            StepType::Given => (*rng.pick(&["* ", "And ", "But ", "Given "])).to_owned(),
+            _ => (*rng.pick(&["And ", "But "])).to_owned(),
+        };
+    }
     let imp = match coll.find(&step) {
         Ok(None) => "none".to_owned(),
         Ok(Some((f, _caps, loc, ctx))) => {
